@@ -534,6 +534,7 @@ func (r *Router) batch(w http.ResponseWriter, req *http.Request) {
 	dataset, err := getDatasetFromRequest(req)
 	if err != nil {
 		r.handlerReturnWithError(w, ErrReqToEvent, err)
+		return
 	}
 
 	apiKey := req.Header.Get(types.APIKeyHeader)
@@ -545,6 +546,7 @@ func (r *Router) batch(w http.ResponseWriter, req *http.Request) {
 	environment, err := r.getEnvironmentName(apiKey)
 	if err != nil {
 		r.handlerReturnWithError(w, ErrReqToEvent, err)
+		return
 	}
 
 	batchedEvents := newBatchedEvents(
